@@ -412,6 +412,43 @@ fn p_grp_cast() {
     kani::cover!(route == 2, "as_mut");
     kani::cover!(route == 3, "into");
 }
+#[kani::proof]
+#[kani::unwind(9)]
+fn p_grp_cast_subset() {
+    // casts to a STRICT SUBSET of the optional traits (each single one of the two), all four
+    // routes: the requested trait's methods and the mandatory ones reach the same instance
+    let s0: State = kani::any();
+    let (id, a): (u64, u64) = kani::any();
+    let v: u32 = kani::any();
+    let second: bool = kani::any(); // false: T2 only, true: TGu32 only
+    let m: u8 = kani::any();
+    kani::assume(m < 4);
+    let mut sd = s0;
+    let mut d = Imp { st: &mut sd, id };
+    let r1 = match (second, m) { (false, 0) => d.two_b(a), (false, 1) => d.two_a(a), (true, 0) => d.g_two(v) as u64, (true, 1) => d.g_one(v) as u64, (_, 2) => d.zeta(a), _ => d.m_alpha(a) };
+    core::mem::forget(d);
+    let mut st = s0;
+    let obj = group_obj!(Imp { st: &mut st, id } as G1);
+    let route: u8 = kani::any();
+    kani::assume(route < 4);
+    macro_rules! call_first { ($c:expr) => { match m { 0 => $c.two_b(a), 1 => $c.two_a(a), 2 => $c.zeta(a), _ => $c.m_alpha(a) } } }
+    macro_rules! call_second { ($c:expr) => { match m { 0 => $c.g_two(v) as u64, 1 => $c.g_one(v) as u64, 2 => $c.zeta(a), _ => $c.m_alpha(a) } } }
+    let r2 = match (route, second) {
+        (0, false) => { let mut c = cast!(obj impl T2).unwrap(); let r = call_first!(c); core::mem::forget(c); r }
+        (0, true) => { let mut c = cast!(obj impl TGu32).unwrap(); let r = call_second!(c); core::mem::forget(c); r }
+        (1, false) => { let mut obj = obj; let r = { let c = as_mut!(obj impl T2).unwrap(); call_first!(c) }; core::mem::forget(obj); r }
+        (1, true) => { let mut obj = obj; let r = { let c = as_mut!(obj impl TGu32).unwrap(); call_second!(c) }; core::mem::forget(obj); r }
+        (2, false) => { let mut c = into!(obj impl T2).unwrap(); let r = call_first!(c); core::mem::forget(c); r }
+        (2, true) => { let mut c = into!(obj impl TGu32).unwrap(); let r = call_second!(c); core::mem::forget(c); r }
+        (_, false) => { kani::assume(m == 0 || m == 2); let r = { let c = as_ref!(obj impl T2).unwrap(); if m == 0 { c.two_b(a) } else { c.zeta(a) } }; core::mem::forget(obj); r }
+        (_, true) => { kani::assume(m != 3); let r = { let c = as_ref!(obj impl TGu32).unwrap(); match m { 0 => c.g_two(v) as u64, 1 => c.g_one(v) as u64, _ => c.zeta(a) } }; core::mem::forget(obj); r }
+    };
+    assert!(r1 == r2, "C01 same result as the direct call (through a cast of the group to a subset of its optional traits)");
+    assert!(st == sd, "C01 same instance state as after the direct call (through a cast to a subset)");
+    kani::cover!(route == 1 && second && m == 1, "as_mut to the second optional trait only");
+    kani::cover!(route == 2 && !second, "into the first optional trait only");
+    kani::cover!(route == 3 && second, "as_ref to the second optional trait only");
+}
 //@ prefix=b_hist kind=property clause=bounded cross-check: three symbolic calls through ONE object equal the same three direct calls
 #[kani::proof]
 #[kani::unwind(9)]
